@@ -18,6 +18,7 @@ type T = (u64, u32);
 type Ent = TrioArc<ValueEntry<u8, Val>>;
 
 pub(crate) static mut NOW: T = (0, 0);
+pub(crate) static mut MOCK: Option<Arc<crate::common::time::clock::Mock>> = None;
 /// 0: symbolic sketch contents; 1: concrete empty sketch; 2: concrete, key SKETCH_HOT recorded 3 times;
 /// 3: sketch not enabled yet (unallocated)
 pub(crate) static mut SKETCH_MODE: u8 = 0;
@@ -194,6 +195,14 @@ pub(crate) fn sbuild(cfg: &SCfg) -> SSt {
     let (r_snd, r_rcv) = crossbeam_channel::bounded(QCAP);
     let (w_snd, w_rcv) = crossbeam_channel::bounded(QCAP);
     let inner: In = Inner::new(cfg.cap, None, BH::default(), weigher, r_rcv, w_rcv, ttl.map(dur), tti.map(dur));
+    // clock: `Instant::now` is stubbed (now_stub) for the Kani run; the NATIVE replay of a counterexample
+    // (stubs do not apply there; built with --cfg verif_native) uses the crate's own mock clock instead
+    if cfg!(verif_native) {
+        let (clock, mock) = crate::common::time::clock::verif_clock::mock_at(instant_at(now.0, now.1));
+        *inner.expiration_clock.write().expect("lock poisoned") = Some(clock);
+        inner.has_expiration_clock.store(true, Ordering::SeqCst);
+        unsafe { MOCK = Some(mock); }
+    }
     let sketch = match unsafe { SKETCH_MODE } {
         0 => { let s = sk::any_sketch_pub::<4>(); sk::assume_sizing_inv_pub::<4>(&s); s }
         m => {
@@ -1079,7 +1088,13 @@ pub(crate) fn add_pending(st: &SSt, k: u8) -> Ent {
         _ => unreachable!(),
     }
 }
-pub(crate) fn set_now(t: (u64, u32)) { unsafe { NOW = t; } }
+pub(crate) fn set_now(t: (u64, u32)) {
+    unsafe {
+        NOW = t;
+        #[allow(static_mut_refs)]
+        if let Some(m) = MOCK.as_ref() { crate::common::time::clock::verif_clock::set(m, instant_at(t.0, t.1)); }
+    }
+}
 pub(crate) fn tc_now(tc: usize) -> (u64, u32) { STCS[tc].now }
 pub(crate) fn hidden_at(st: &SSt, i: usize) -> bool { st.g.hidden(i) }
 pub(crate) fn base_of(st: SSt) -> Bc { let SSt { b, g: _, ent, key } = st; std::mem::forget(ent); std::mem::forget(key); b }
